@@ -15,3 +15,10 @@ CHECKS["C16"] = {
     ],
     "assumptions": ["fake object store is faithful for read-after-write, list-after-write, atomic single-object PUT, NoSuchKey on missing GET"],
 }
+
+CHECKS["C06"] = {
+    "level": "exploration",
+    "subs": [
+        _sub("TestC06_Diff", 4000, 160000, sq=16, st=16),
+    ],
+}
